@@ -18,7 +18,7 @@ def spec(tier):
 
 def plan(tier, seed):
   return {
-      'cases': universe.graph_cases(spec(tier)),
+      'cases': universe.graph_cases(spec(tier), sigrev=True),
       'budget_s': 240 if tier == 'quick' else 3000,
       'chunk': 16,
       'rule': ('E1: every complete graph history within the bounds x the 5 '
